@@ -19,7 +19,7 @@ def run(ctx):
     runlib.lean_part(ctx, "RootSim.Props.C01GlueV2", ['RootSim.C01GlueV2.tw_committed_monotone_V2','RootSim.C01GlueV2.tw_committed_prefix_of_sequential_V2'])
     # runs stopped by a termination time (final state speculative) as well as predicate-terminated ones
     agg = runlib.run_matrix(ctx, "committed stream per LP vs Lean sequential per-LP sequence at every fossil collection and at shutdown",
-                            36, 900, oracle_keys=("s_below_gvt",), threads=(1, 2, 3, 4), ckpts=(1, 2, 3, 7, 0), tterm=True,
+                            36, 400, oracle_keys=("s_below_gvt",), threads=(1, 2, 3, 4), ckpts=(1, 2, 3, 7, 0), tterm=True,
                             fossil_heavy=True, sparse=3)
     if agg:
         ctx.coverage["distinct_nontrivial"] = agg.tot.get("fossil", 0)
